@@ -15,6 +15,8 @@ structure Acc where
   diffs    : Nat := 0
   msgs     : Array String := #[]
   stats    : List (String × Nat) := []
+  cacheKey : String := ""
+  cacheDec : Option (String × Array UInt8 × Nat × Nat) := none   -- verdict, out, bytes, cmf
 
 def Acc.bump (a : Acc) (k : String) (n : Nat := 1) : Acc :=
   let rec go : List (String × Nat) → List (String × Nat)
@@ -209,6 +211,73 @@ def opCk (a : Acc) (ln : Nat) (l : Line) : Acc := Id.run do
     a := a.fail ln l "checksum" s!"{kind} of {data.size} bytes from {init} ({l.get "what"}): implementation {got}, definition {want}"
   return a
 
+def isPrefixOf (a b : Array UInt8) : Bool := a.size ≤ b.size && firstDiff a b == a.size
+
+/-- `DEC`: what one decoder entry point reported for `data`, against the reference decoder. -/
+def opDec (a : Acc) (ln : Nat) (l : Line) : Acc := Id.run do
+  let zlib := l.nat "fmt" == 1
+  let maxdist := l.nat "maxdist"
+  let ep := l.get "ep"
+  let st := l.int "st"
+  let consumed := l.int "consumed"
+  let more := l.nat "more" == 1
+  let pov := l.nat "pov" == 1
+  let out := l.bytes "out"
+  let dataHex := l.get "data"
+  let preHex := l.get "pre"
+  let key := s!"{l.get "fmt"}|{maxdist}|{preHex.length}|{dataHex}"
+  let mut a := a
+  let (verdict, sout, sbytes, cmf) ← (do
+    match a.cacheDec with
+    | some c => if a.cacheKey == key then return c else pure ()
+    | none => pure ()
+    let data := hexToBytes dataHex
+    let d := specDecode zlib (hexToBytes preHex) maxdist data
+    let cmf := if data.size > 0 then data[0]!.toNat else 0
+    return (d.verdict, d.out, d.bytes, cmf))
+  a := { a with cacheKey := key, cacheDec := some (verdict, sout, sbytes, cmf) }
+  let epk := if ep.startsWith "flat" then "flat" else if ep.startsWith "ring" then "ring" else if ep.startsWith "inflate" then "inflate" else ep
+  let vk := if verdict.startsWith "reject" then "reject" else verdict
+  a := a.bump s!"dec_{epk}_{vk}"
+  if verdict == "fuel" then return a.fail ln l "driver" "reference decoder ran out of fuel"
+  -- a ring buffer smaller than the declared zlib window is refused by design (C09)
+  if zlib && epk == "ring" && maxdist < 2 ^ (cmf / 16 + 8) && verdict != "truncated" then
+    if st == 0 then a := a.fail ln l "window" "ring smaller than the declared window was accepted"
+    return a.bump "dec_ring_window_refused"
+  if pov && verdict != "truncated" then a := a.bump "pov_not_truncated"
+  if verdict == "accept" then
+    if st == 2 && isPrefixOf out sout && out.size < sout.size then
+      return a.bump "dec_overflow_skipped"
+    if st != 0 then
+      a := a.fail ln l "valid" s!"ep={ep}: valid stream ({sout.size} bytes of plaintext) reported status {st}"
+    else
+      if !sameBytes out sout then
+        a := a.fail ln l "valid" s!"ep={ep}: output differs from the specification at byte {firstDiff out sout} (sizes {out.size} vs {sout.size})"
+      if consumed ≥ 0 && consumed != sbytes then
+        a := a.fail ln l "consumed" s!"ep={ep}: consumed {consumed} bytes, the stream is exactly {sbytes} bytes long (trailing {l.get "trail"})"
+  else if verdict.startsWith "reject" then
+    if st == 0 then
+      a := a.fail ln l "sound" s!"ep={ep}: completion reported on an invalid stream ({verdict})"
+    else if verdict == "reject:adlerMismatch" && st != -2 && epk != "inflate" && epk != "iter" && st != 2 then
+      a := a.fail ln l "sound" s!"ep={ep}: wrong trailer reported as status {st}, expected Adler32Mismatch"
+    else if st == 1 then
+      a := a.fail ln l "sound" s!"ep={ep}: invalid stream ({verdict}) reported as needs-more-input"
+  else
+    -- truncated: input ended before the stream did
+    if st == 0 then
+      a := a.fail ln l "sound" s!"ep={ep}: completion reported on a truncated stream"
+    else if st == -1 || st == -2 then
+      a := a.fail ln l "prefix" s!"ep={ep}: a stream that merely ends early was rejected as corrupt (status {st}, prefix-of-valid={pov})"
+    else if (epk == "flat" || epk == "ring") && st == 1 && !more then
+      a := a.fail ln l "prefix" s!"ep={ep}: needs-more-input without more input announced"
+    else if (epk == "flat" || epk == "ring") && st == -4 && more then
+      a := a.fail ln l "prefix" s!"ep={ep}: cannot-make-progress although more input was announced"
+    -- (the vector function returns its whole zero-padded buffer on error, and the iterator helper
+    --  returns no bytes: no prefix comparison for those two)
+    if epk != "vec" && epk != "iter" && !isPrefixOf out sout then
+      a := a.fail ln l "prefix" s!"ep={ep}: bytes delivered before the input ended are not a prefix of the specified output (first difference {firstDiff out sout})"
+  return a
+
 def dispatch (a : Acc) (ln : Nat) (l : Line) : Acc :=
   match l.op with
   | "ENC" => opEnc a ln l
@@ -216,6 +285,7 @@ def dispatch (a : Acc) (ln : Nat) (l : Line) : Acc :=
   | "TAIL" => opTail a ln l
   | "HDR" => opHdr a ln l
   | "CK" => opCk a ln l
+  | "DEC" => opDec a ln l
   | "" => a
   | "#" => a
   | _ => a.bump ("unknown_op_" ++ l.op)
